@@ -111,8 +111,13 @@ func c17GenSet(r *rand.Rand, n int, main peer.AddrInfo, others []peer.AddrInfo, 
 	if r.Intn(2) == 0 && n > 0 {
 		mainAt = r.Intn(n)
 	}
+	// (a provider may list itself more than once in one set)
+	mainAgain := -1
+	if mainAt >= 0 && n > 1 && r.Intn(4) == 0 {
+		mainAgain = r.Intn(n)
+	}
 	for i := 0; i < n; i++ {
-		if i == mainAt {
+		if i == mainAt || i == mainAgain {
 			provs = append(provs, main)
 			*shape = append(*shape, "main")
 		} else {
